@@ -3,7 +3,7 @@ from . import has_class
 CFG = {
     "harness": ["v1", "v2"],
     "pcheck": ["C03.order", "C03.ordertypes"],
-    "required_classes": ["universe", "name-ties", "namer-raw", "namer-public0", "namer-public1", "namer-private0", "namer-public5",
+    "required_classes": ["entry-filed-under-two-names", "universe", "name-ties", "namer-raw", "namer-public0", "namer-public1", "namer-private0", "namer-public5",
                          "repeat-runs", "order-types", "newcontext", "parsed-universe", "newcontext-unknown-order-name", "one-name-in-several-tables", "earlier-result-kept", "package-path-differs-from-its-key"],
     "rule": "hand-built universes (1-5 packages incl. the anonymous package, types/functions/variables/constants, the same type name in several packages so that public/private namers with 0 prepended packages collide, raw namer with equal leaves); every universe is ordered 20 (quick) / 60 (thorough) times by fresh Orderers in one process (Go re-randomises map iteration on every range); non-trivial = input longer than 12 characters; distinct = distinct (entry,input)",
     "exhaustive": [],
